@@ -991,6 +991,12 @@ func ParseAggregateTypeWithExpression(exprStr string) (aggType aggregator.Aggreg
 			return "expression", fieldName, exprStr, nil, nil
 		}
 
+		// A plain field path (a.b[-1], cfg['x-y'].z) is a field reference, not arithmetic,
+		// even though a negative index or a quoted key may contain operator characters
+		if pureFieldPathRegex.MatchString(trimmed) {
+			return "", "", "", nil, nil
+		}
+
 		// If not a function call but contains operators or keywords, it might be an expression
 		if strings.ContainsAny(exprStr, "+-*/<>=!&|") ||
 			strings.Contains(strings.ToUpper(exprStr), "AND") ||
@@ -1097,6 +1103,10 @@ func hasNestedFunctions(expr string) bool {
 	funcs := extractAllFunctions(expr)
 	return len(funcs) > 1
 }
+
+// pureFieldPathRegex matches a field reference made only of names, .name steps,
+// [index] steps (negative allowed) and ['key'] / ["key"] steps
+var pureFieldPathRegex = regexp.MustCompile("^[A-Za-z_][A-Za-z0-9_]*(\\.[A-Za-z_][A-Za-z0-9_]*|\\[-?[0-9]+\\]|\\['[^']*'\\]|\\[\"[^\"]*\"\\])*$")
 
 // containsOperators checks if expression contains arithmetic or comparison operators
 func containsOperators(expr string) bool {
